@@ -79,11 +79,11 @@ def lc_unit():
 
 
 
-def core_unit(name, file, harness, path, hs, assume, stubs=False):
+def core_unit(name, file, harness, path, hs, assume, stubs=False, unsafe=False):
     srcs = ["units/common/pae_stub.rs"] + (["units/awslc/stubs.rs"] if stubs else []) + [harness]
     return Unit(
         name=name, members=["paseto-core", PKG], package=PKG,
-        inject=[(file, srcs)], patches=MODELS, harness_path=path,
+        inject=[(file, srcs)], patches=MODELS, harness_path=path, allow_unsafe=unsafe,
         kani_flags=FLAGS, dev_deps=DEV, harnesses=hs, assumptions=assume, trusted=TRUSTED,
     )
 
@@ -181,10 +181,14 @@ def pbkw_unit():
                Harness(f"unwrap_rejects_tamper_{k}", ["C06"], complete=False, bound=b + "; flip position/bit symbolic (blob, password)", functions=fn, timeout=2400),
                Harness(f"unwrap_rejects_relabel_{k}", ["C06", "C10"], complete=False, bound=b + "; header relabelled local<->secret", functions=fn, timeout=2400)]
     for n in (0, 51, 52, 99, 100, 133):
-        hs.append(Harness(f"unwrap_short_{n}", ["C04", "C06"], complete=False, bound=f"blob length {n}, all parameter blocks with a non-zero iteration count", functions=fn))
-    hs += [Harness("unwrap_zero_iterations_h", ["C04"], complete=False, bound="132-byte blob, iteration count 0, everything else symbolic", functions=fn),
+        hs.append(Harness(f"unwrap_short_{n}", ["C04", "C06"], complete=False, bound=f"blob length {n}, all parameter blocks with a non-zero iteration count", functions=fn, timeout=(900 if n < 100 else 3600), tier=("quick" if n < 100 else "thorough")))
+    hs += [Harness("unwrap_rejects_param_flip_32", ["C06"], tier="thorough", complete=False, bound="local key; one flipped bit of the iteration count (bytes 32..36)", functions=fn, timeout=3600,
+                   desc="runs the real U32::get: memo-table size symbolic after wrap_keys (slow)"),
+           Harness("unwrap_zero_iterations_h", ["C04"], tier="thorough", complete=False, bound="132-byte blob, iteration count 0, everything else symbolic", functions=fn, timeout=3600),
            Harness("wrap_fail_closed_h", ["C16"], functions=fn, timeout=2400), Harness("canary_inputs_h", ["C05", "C06", "C07"], expect="fail", timeout=2400)]
-    return core_unit("awslc_pbkw", F, "units/awslc/pbkw.rs", "core::pw_wrap::verif", hs, A_RS[:3])
+    A = A_RS[:3] + ["quick-tier harnesses: zerocopy big_endian::U32::get is replaced by a function returning the harness's literal iteration count, "
+                    "with the obligation that the bytes the code reads are that count (keeps the NonZeroU32 branch in wrap_keys decidable for CBMC; NOTES.md section 10)"]
+    return core_unit("awslc_pbkw", F, "units/awslc/pbkw.rs", "core::pw_wrap::verif", hs, A, unsafe=True)
 
 
 def pke_unit():
